@@ -115,25 +115,23 @@ def containment(w, f, clo, exc, subj):
     uses = [x for x in walk(f['body']) if x.get('k') == 'local' and x.get('i') == li and id(x) not in inside]
     if kind == 'unused':
         return (len(uses) == 0, f'`{subj}` is never read outside the closure' if not uses else f'`{subj}` is read {len(uses)} time(s) outside the closure')
-    if kind == 'index-only':
-        idx_pos = set()
-        for x in walk(f['body']):
-            if x.get('k') == 'index':
-                for y in walk(x['i']):
-                    idx_pos.add(id(y))
-        bad = [u for u in uses if id(u) not in idx_pos]
-        return (not bad, f'every use of `{subj}` outside the closure is an index expression ({len(uses)} uses)' if not bad else f'`{subj}` is used outside an index position')
-    if kind == 'iter-index':
+    if kind in ('index-only', 'iter-index'):
         idx_pos, iter_recv = set(), set()
         for x in walk(f['body']):
             if x.get('k') == 'index':
                 for y in walk(x['i']):
                     idx_pos.add(id(y))
-            if x.get('k') == 'mcall' and x.get('m') in ('iter', 'len'):
+            if kind == 'iter-index' and x.get('k') == 'mcall' and x.get('m') in ('iter', 'len'):
                 for y in walk(x['recv']):
                     iter_recv.add(id(y))
         bad = [u for u in uses if id(u) not in idx_pos and id(u) not in iter_recv]
-        return (not bad, f'`{subj}` is only indexed into or iterated ({len(uses)} uses); its elements select table points by index' if not bad else f'`{subj}` is used in another way')
+        if bad:
+            return (False, f'`{subj}` is used outside an index position' + (' / iteration' if kind == 'iter-index' else ''))
+        ok2, why2 = selected_element_contained(f, clo, li, exc.get('consumers', ()))
+        if not ok2:
+            return (False, why2)
+        return (True, f'every use of `{subj}` outside the closure is an index expression' + (' or an iteration' if kind == 'iter-index' else '') +
+                f' ({len(uses)} uses); {why2}')
     if kind == 'cpu-state':
         t = next((cp['t'] for cp in clo.get('caps', []) if cp['v'] == subj), '')
         ok = any(m in t for m in exc.get('types', []))
@@ -143,6 +141,94 @@ def containment(w, f, clo, exc, subj):
                  for c in hirq.calls(clo['body']))
         return (ok, 'closure only copies bytes into the reader buffer' if ok else 'closure does more than copying bytes')
     return (False, 'unknown containment kind')
+
+
+def selected_element_contained(f, clo, li, consumers):
+    """The element a witness-derived index selects (`table[idx]`, its clones and the locals bound to them) may only (a) be handed by reference to a tabled
+    value-only consumer, (b) have its off-circuit value read (`.value()`, a Value-typed field).  Returned, stored or passed anywhere else, its CELLS would
+    take part in the circuit, and which cells those are would depend on the witness."""
+    body = f['body']
+    parent = {}
+    for x in walk(body):
+        for c in children(x):
+            parent[id(c)] = x
+    inside = {id(x) for x in walk(clo['body'])}
+    derived = {li}
+    # closure parameters bound by iterating a derived collection
+    changed = True
+    while changed:
+        changed = False
+        for x in walk(body):
+            if x.get('k') == 'mcall' and any(peel(a).get('k') == 'closure' for a in x.get('args', [])):
+                roots = [y for y in walk(x['recv']) if y.get('k') == 'local' and y.get('i') in derived and id(y) not in inside]
+                if roots:
+                    for a in x['args']:
+                        a = peel(a)
+                        if a.get('k') == 'closure':
+                            for pp in a.get('params', []):
+                                for b in pat_bindings(pp):
+                                    if (b.get('t') or '').replace('&', '').strip() in ('usize', 'u32', 'u64') and b['i'] not in derived:
+                                        derived.add(b['i']); changed = True
+            if x.get('k') == 'for':
+                roots = [y for y in walk(x['iter']) if y.get('k') == 'local' and y.get('i') in derived and id(y) not in inside]
+                if roots:
+                    for b in pat_bindings(x['pat']):
+                        if (b.get('t') or '').replace('&', '').strip() in ('usize', 'u32', 'u64') and b['i'] not in derived:
+                            derived.add(b['i']); changed = True
+    selected_nodes = []
+    for x in walk(body):
+        if x.get('k') == 'index' and id(x) not in inside:
+            if any(y.get('k') == 'local' and y.get('i') in derived for y in walk(x['i'])):
+                t = x.get('t') or ''
+                if t.replace('&', '').strip() in ('usize', 'u32', 'u64', 'i32'):
+                    continue            # the index vector itself (unwrapped[i])
+                selected_nodes.append(x)
+    sel_locals = set()
+    problems = []
+    nuses = [0]
+
+    def classify(x):
+        nuses[0] += 1
+        cur = x
+        while True:
+            p = parent.get(id(cur))
+            if p is None:
+                problems.append('selected element is the value of the function body'); return
+            k = p.get('k')
+            if k in ('ref', 'cast') or (k == 'un' and p.get('op') == '*') or (k == 'block' and p.get('e') is cur and not p.get('ss')):
+                cur = p; continue
+            if k == 'mcall' and p.get('recv') is cur:
+                if p.get('m') == 'clone':
+                    cur = p; continue
+                if p.get('m') == 'value':
+                    return
+                problems.append(f'selected element is the receiver of .{p.get("m")}() (line {p.get("l")})'); return
+            if k == 'field' and p.get('e') is cur:
+                if (p.get('t') or '').lstrip('&').startswith(('midnight_proofs::circuit::Value', 'midnight_proofs::circuit::value::Value')):
+                    return
+                problems.append(f'cell-bearing field .{p.get("n")} of the selected element is read (line {p.get("l")})'); return
+            if k in ('call', 'mcall'):
+                c = callee(p) or ''
+                if any(c.endswith(cc) for cc in consumers):
+                    return
+                problems.append(f'selected element is passed to {short(c) or "a constructor"} (line {p.get("l")}), not to a tabled value-only consumer'); return
+            if k in ('let', 'letx') and p.get('init') is cur:
+                bs = pat_bindings(p['pat'])
+                for b in bs:
+                    if b['i'] not in sel_locals:
+                        sel_locals.add(b['i'])
+                        for y in walk(body):
+                            if y.get('k') == 'local' and y.get('i') == b['i']:
+                                classify(y)
+                return
+            problems.append(f'selected element flows into a `{k}` expression (line {p.get("l")})'); return
+    for x in selected_nodes:
+        classify(x)
+    if not selected_nodes:
+        return (True, 'no element is selected with the index')
+    if problems:
+        return (False, 'the witness-selected table element escapes: ' + '; '.join(sorted(set(problems))[:3]))
+    return (True, f'the selected element ({len(selected_nodes)} site(s), {nuses[0]} uses) only feeds value-only consumers {list(consumers)} and Value reads')
 
 
 def e3(ck, w):
